@@ -563,26 +563,35 @@ def parentUpperReal (pp : Path) : M Real := do
   whenM (!pm.inUpper) (createUpperDir pp)
   getUpperReal pp
 
+/-- what copy-up creates in the upper layer for a lower non-directory with attributes `st`:
+    `copy_symlink_up` a symlink with the same target, `copy_regfile_up` an empty regular file
+    with the same mode (content follows, xattrs do not), `copy_special_up` a node with the same
+    mode -/
+def upperCopy (st : Node) (id : Nat) : Node :=
+  match st with
+  | .symlink t => .symlink t
+  | .file _ mode _ _ => .file id mode [] 0
+  | nd => .other id nd.mode
+
+def copyMethod : Node → Method
+  | .symlink _ => .symlink
+  | .file .. => .create
+  | _ => .mknod
+
+/-- `copy_regfile_up`: read the lower file, write it into the new upper file -/
+def copyContent (st : Node) (ri : Real) : M Unit :=
+  match st with
+  | .file _ _ c _ => layerCall ri.layer .write (hWrite · ri.path 0 c)
+  | _ => pure ()
+
 /-- `copy_symlink_up` / `copy_special_up` / `copy_regfile_up` for the node `pp/n` with
     attributes `st` -/
-def copyFileUp (st : Node) (pp : Path) (n : Name) : M Unit :=
-  match st with
-  | .symlink t => do
-    let pr ← parentUpperReal pp
-    let ri ← pr.mkNode .symlink n (.symlink t)
-    addUpperInode (n :: pp) ri true
-  | .file _ mode c _ => do
-    let pr ← parentUpperReal pp
-    let id ← freshId
-    let ri ← pr.mkNode .create n (.file id mode [] 0)
-    -- read the lower file, write it into the new upper file
-    layerCall ri.layer .write (hWrite · ri.path 0 c)
-    addUpperInode (n :: pp) ri true
-  | nd => do
-    let pr ← parentUpperReal pp
-    let id ← freshId
-    let ri ← pr.mkNode .mknod n (.other id nd.mode)
-    addUpperInode (n :: pp) ri true
+def copyFileUp (st : Node) (pp : Path) (n : Name) : M Unit := do
+  let pr ← parentUpperReal pp
+  let id ← freshId
+  let ri ← pr.mkNode (copyMethod st) n (upperCopy st id)
+  copyContent st ri
+  addUpperInode (n :: pp) ri true
 
 /-- `OverlayFs::copy_node_up` -/
 def copyNodeUp (p : Path) : M Unit := do
